@@ -214,19 +214,19 @@ func (d *mdisk) image(choice []tornChoice) (files map[string][]byte, next *mdisk
 // ---- conversion of the log into pevents, mirroring the disk ----
 
 type pconv struct {
-	w        *World
-	events   []string   // Coq pevents
-	diskAt   []*mdisk   // diskAt[i] = disk after i events
-	ackedAt  [][]int    // keys acknowledged (ok) after i events
-	introAt  []int      // number of batches introduced after i events
-	order    []int      // introduction order (keys)
-	table    map[string][]byte
-	segdocs  map[uint64][]DV
-	commits  int
-	commitsAt []int
-	rootSegsAt [][]uint64 // persisted segment ids of the current root after i events
-	grabSegsAt [][]uint64
-	stats    TraceStats
+	w             *World
+	events        []string // Coq pevents
+	diskAt        []*mdisk // diskAt[i] = disk after i events
+	ackedAt       [][]int  // keys acknowledged (ok) after i events
+	introAt       []int    // number of batches introduced after i events
+	order         []int    // introduction order (keys)
+	table         map[string][]byte
+	segdocs       map[uint64][]DV
+	commits       int
+	commitsAt     []int
+	rootSegsAt    [][]uint64 // persisted segment ids of the current root after i events
+	grabSegsAt    [][]uint64
+	stats         TraceStats
 	removedNeeded []string
 	probeTerms    []string
 	dirOracle     []string
@@ -687,9 +687,9 @@ func (r reopenResult) coqR() string {
 // ---- the engine ----
 
 type lineage struct {
-	base    []DV        // content the first round started from
-	batches []BatchSpec // applied sequence (introduction order) across rounds, already cut to recovered prefixes
-	acked   map[int]bool
+	base          []DV        // content the first round started from
+	batches       []BatchSpec // applied sequence (introduction order) across rounds, already cut to recovered prefixes
+	acked         map[int]bool
 	everCompleted bool
 	ackedPrefix   int // the first ackedPrefix batches were acknowledged before an earlier crash
 }
@@ -712,7 +712,7 @@ func runProto(o Opts, mode string) error {
 	}
 	keyBase := 0
 	for s := 0; s < nRuns; s++ {
-		wo := WorldOpts{DirKind: "sim", Universe: 3 + rng.Intn(4)}
+		wo := WorldOpts{DirKind: "sim", Universe: 3 + rng.Intn(4), Poison: true}
 		if s%4 == 3 { // the real FileSystemDirectory behind the recorder
 			wo.DirKind = "fsrec"
 			wo.Path = workDir(fmt.Sprintf("proto-%s-%d-%d", mode, o.Seed, s))
@@ -749,9 +749,32 @@ func runProto(o Opts, mode string) error {
 				if mode != "c14" {
 					faults.sticky = false
 				}
+				if mode == "c14" && wo.DirKind == "fsrec" {
+					// on the real directory the fault reaches the code through the io.Writer handed to WriteTo: every
+					// run of the check places one inside a snapshot write and one inside a segment write, early
+					// enough to strike before the plan is cleared
+					combos := [][2]string{{"persist.snp", "partial"}, {"persist.seg", "after"}, {"persist.snp", "after"}, {"persist.seg", "partial"}, {"persist.snp", "partial"}, {"remove", "before"}}
+					cmb := combos[(s/4)%len(combos)]
+					faults.class, faults.when = cmb[0], cmb[1]
+					if faults.fromN > 2 {
+						faults.fromN = faults.fromN % 3
+					}
+				}
 				if mode == "c11" && rng.Intn(2) == 0 {
 					faults.class = "remove" // refused removals: the clean-up has to keep its books right
 					faults.transient = 2 + rng.Intn(4)
+				}
+				if mode == "c14" && wo.DirKind == "sim" && s%4 == 1 {
+					// faults that strike only between Batch calls: with a merge policy that merges small segments
+					// they land on the file merger's own segment write or load while the writer is otherwise idle
+					w.O.Merges = "small"
+					faults.class = []string{"persist.seg", "load.seg"}[(s/4)%2]
+					faults.when = []string{"before", "after", "partial"}[(s/8)%3]
+					faults.sticky = false
+					faults.fromN = 0
+					faults.transient = 1 + (s/4)%3
+					faults.idleOnly = w.Idle
+					desc["merges"] = "small"
 				}
 				desc["faults"] = faults.describe()
 			}
@@ -935,7 +958,10 @@ func protoScenario(cw *cq.Writer, w *World, rng *rand.Rand, mode string, faults 
 		if rng.Intn(5) == 0 {
 			waitQuiet(w.Rec, 2*time.Millisecond, 200*time.Millisecond)
 		}
-		if faults != nil && rng.Intn(4) == 0 {
+		if faults != nil && faults.idleOnly != nil {
+			waitQuiet(w.Rec, 3*time.Millisecond, 150*time.Millisecond) // let the merger work between batches
+		}
+		if faults != nil && faults.idleOnly == nil && rng.Intn(4) == 0 {
 			faults.clearTransient()
 		}
 	}
@@ -1057,6 +1083,12 @@ func protoScenario(cw *cq.Writer, w *World, rng *rand.Rand, mode string, faults 
 			cw.OracleFail("second-writer-harmed-first", "the first writer fails a batch after a refused second OpenWriter: "+err.Error(), desc)
 		}
 		waitQuiet(w.Rec, 5*time.Millisecond, 600*time.Millisecond)
+	}
+	if mode == "c02" && !w.O.Unsafe && faults == nil && w.Dir != nil && rng.Intn(3) == 0 {
+		// staged: Close arrives while the persister is held inside the round of batch A and batch B already waits
+		// in the next root; whatever Close does with B, a nil return of B needs a complete snapshot containing it
+		desc["close_race_staged"] = true
+		return protoStagedCloseRace(cw, w, desc)
 	}
 	if mode == "c02" && !w.O.Unsafe && rng.Intn(3) == 0 {
 		// Close racing with safe batches: a batch that returns nil must be durable whatever Close does; batches
@@ -1296,6 +1328,161 @@ func protoSupersededMemMerge(w *World, faults *faultPlan, desc map[string]interf
 	return nil
 }
 
+// protoSegGate holds the next segment write of the directory until released (or 3 s).
+type protoSegGate struct {
+	mu               sync.Mutex
+	armed            bool
+	blocked, release chan struct{}
+}
+
+func (g *protoSegGate) arm() (chan struct{}, chan struct{}) {
+	g.mu.Lock()
+	defer g.mu.Unlock()
+	g.armed = true
+	g.blocked, g.release = make(chan struct{}), make(chan struct{})
+	return g.blocked, g.release
+}
+
+func (g *protoSegGate) disarm() {
+	g.mu.Lock()
+	g.armed = false
+	g.mu.Unlock()
+}
+
+func (g *protoSegGate) gate(op sim.Op) {
+	if op.Op != "persist" || op.Item != ".seg" {
+		return
+	}
+	g.mu.Lock()
+	if !g.armed {
+		g.mu.Unlock()
+		return
+	}
+	g.armed = false
+	b, r := g.blocked, g.release
+	g.mu.Unlock()
+	close(b)
+	select {
+	case <-r:
+	case <-time.After(3 * time.Second):
+	}
+}
+
+// install chains the gate behind whatever gate the directory already has; the returned function restores it.
+func (g *protoSegGate) install(w *World) func() {
+	if w.Dir != nil {
+		prev := w.Dir.Gate
+		w.Dir.Gate = func(op sim.Op) {
+			if prev != nil {
+				prev(op)
+			}
+			g.gate(op)
+		}
+		return func() { w.Dir.Gate = prev }
+	}
+	prev := w.RDir.Gate
+	w.RDir.Gate = func(op sim.Op) {
+		if prev != nil {
+			prev(op)
+		}
+		g.gate(op)
+	}
+	return func() { w.RDir.Gate = prev }
+}
+
+func protoMarkedBatch(w *World, ops ...DocOp) BatchSpec {
+	w.mu.Lock()
+	key := w.nextKey
+	w.nextKey++
+	for i := range ops {
+		if ops[i].Kind != "del" {
+			ops[i].V = w.nextV
+			w.nextV++
+		}
+	}
+	w.mu.Unlock()
+	return BatchSpec{Key: key, Ops: append(ops, DocOp{Kind: "del", ID: 1000000 + key})}
+}
+
+func protoWaitIntro(w *World, keys ...int) bool {
+	for deadline := time.Now().Add(time.Second); time.Now().Before(deadline); time.Sleep(200 * time.Microsecond) {
+		seen := map[int]bool{}
+		for _, e := range w.Rec.Snapshot() {
+			if e.Kind == "intro-segment" {
+				seen[e.Batch] = true
+			}
+		}
+		all := true
+		for _, k := range keys {
+			if !seen[k] {
+				all = false
+			}
+		}
+		if all {
+			time.Sleep(300 * time.Microsecond) // the root replacement follows the introduction event at once
+			return true
+		}
+	}
+	return false
+}
+
+// protoStagedCloseRace: see the call site.  Batches that never return are abandoned (the writer stopped before
+// persisting them), a panic of a Batch that started after Close dropped the root is only counted.
+func protoStagedCloseRace(cw *cq.Writer, w *World, desc map[string]interface{}) error {
+	g := &protoSegGate{}
+	restore := g.install(w)
+	defer restore()
+	var wg sync.WaitGroup
+	issue := func(b BatchSpec) {
+		wg.Add(1)
+		go func() {
+			defer wg.Done()
+			defer func() {
+				if r := recover(); r != nil {
+					cw.Count("batch_after_close_panics", 1)
+				}
+			}()
+			_ = w.Do(b, false)
+		}()
+	}
+	a := protoMarkedBatch(w, DocOp{Kind: "upd", ID: 0})
+	b := protoMarkedBatch(w, DocOp{Kind: "upd", ID: 1})
+	blk, rel := g.arm()
+	issue(a)
+	staged := false
+	closed := make(chan error, 1)
+	select {
+	case <-blk:
+		issue(b)
+		staged = protoWaitIntro(w, b.Key)
+		go func() { closed <- w.Close() }()
+		time.Sleep(2 * time.Millisecond) // the close signal is out before the held write goes on
+		close(rel)
+	case <-time.After(time.Second):
+		close(rel)
+		go func() { closed <- w.Close() }()
+	}
+	g.disarm()
+	desc["close_race_staged_ok"] = staged
+	var cerr error
+	select {
+	case cerr = <-closed:
+	case <-time.After(20 * time.Second):
+		return fmt.Errorf("close: did not return within 20s")
+	}
+	done := make(chan struct{})
+	go func() { wg.Wait(); close(done) }()
+	select {
+	case <-done:
+	case <-time.After(300 * time.Millisecond):
+		desc["batches_left_blocked_by_close"] = true
+	}
+	if cerr != nil {
+		return fmt.Errorf("close: %w", cerr)
+	}
+	return nil
+}
+
 // ---- fault plans (C14) ----
 
 type faultPlan struct {
@@ -1307,6 +1494,7 @@ type faultPlan struct {
 	active    bool
 	transient int // remaining failures for a transient fault
 	hits      int
+	idleOnly  func() bool // when set: strike only while no Batch call is in progress (the merger's operations)
 }
 
 func newFaultPlan(rng *rand.Rand) *faultPlan {
@@ -1320,7 +1508,7 @@ func newFaultPlan(rng *rand.Rand) *faultPlan {
 }
 
 func (f *faultPlan) describe() string {
-	return fmt.Sprintf("%s %s sticky=%v from-op=%d transient=%d", f.class, f.when, f.sticky, f.fromN, f.transient)
+	return fmt.Sprintf("%s %s sticky=%v from-op=%d transient=%d idle-only=%v", f.class, f.when, f.sticky, f.fromN, f.transient, f.idleOnly != nil)
 }
 
 func (f *faultPlan) at(op sim.Op) *sim.Fault {
@@ -1329,6 +1517,9 @@ func (f *faultPlan) at(op sim.Op) *sim.Fault {
 		cls = op.Op + op.Item
 	}
 	if !f.active || cls != f.class || op.N < f.fromN {
+		return nil
+	}
+	if f.idleOnly != nil && !f.idleOnly() {
 		return nil
 	}
 	if !f.sticky {
